@@ -53,13 +53,33 @@ def spell(S, dialect):
     return S
 
 
-def view_scoped(sql, dialect, S):
+def view_scoped(sql, dialect, S, metadata=None):
     from sqllineage.config import SQLLineageConfig
 
     if S is None:
-        return observe.dump(sql, dialect)
+        return observe.dump(sql, dialect, metadata=metadata)
     with SQLLineageConfig(DEFAULT_SCHEMA=S):
-        return observe.dump(sql, dialect)
+        return observe.dump(sql, dialect, metadata=metadata)
+
+
+# statements whose column attribution needs the provider: the tables are known to it under the DEFAULT schema's name, so the default schema decides
+# whether the lookup finds them (unqualified columns over joins of unqualified tables, stars, INSERT positions of a known unqualified target)
+WITH_METADATA = [
+    ("ansi", "insert into tgt select c1, d1 from ta join tb on ta.k = tb.k", "insert into {S}.tgt select c1, d1 from {S}.ta join {S}.tb on {S}.ta.k = {S}.tb.k",
+     {"ta": ["c1", "k"], "tb": ["d1", "k"]}),
+    ("ansi", "insert into tgt select * from ta", "insert into {S}.tgt select * from {S}.ta", {"ta": ["c1", "c2"]}),
+    ("ansi", "insert into tgt select c1, e1 from ta, s1.tb", "insert into {S}.tgt select c1, e1 from {S}.ta, s1.tb", {"ta": ["c1"], "s1.tb": ["e1"]}),
+    ("ansi", "insert into tgt select ta.c1, ta.c2 from ta", "insert into {S}.tgt select {S}.ta.c1, {S}.ta.c2 from {S}.ta", {"tgt": ["t1", "t2"]}),
+    ("ansi", "create table w as select c1, d1 from ta join tb using (k); insert into tgt select * from w",
+     "create table {S}.w as select c1, d1 from {S}.ta join {S}.tb using (k); insert into {S}.tgt select * from {S}.w", {"ta": ["c1", "k"], "tb": ["d1", "k"]}),
+    ("non-validating", "insert into tgt select c1, d1 from ta join tb on ta.k = tb.k", "insert into {S}.tgt select c1, d1 from {S}.ta join {S}.tb on {S}.ta.k = {S}.tb.k",
+     {"ta": ["c1", "k"], "tb": ["d1", "k"]}),
+]
+
+
+def md_for(md, S):
+    s = S.strip('"`[]').lower()
+    return {(k if "." in k else f"{s}.{k}"): v for k, v in md.items()}
 
 
 # mechanisms that involve the environment: what the fresh interpreter is started with, and what is scoped on top of it
@@ -122,17 +142,19 @@ def classify(case, detail):
     return None
 
 
-def judge_pair(sql, sql_q, dialect, S, mech, res, ctx, stream, has_unqualified=True, precomputed=None):
+def judge_pair(sql, sql_q, dialect, S, mech, res, ctx, stream, has_unqualified=True, precomputed=None, metadata=None):
     c = {"sql": sql, "qualified_sql": sql_q, "dialect": dialect, "default_schema": S, "mechanism": mech}
+    if metadata:
+        c["metadata"] = metadata
     res.case((sql, dialect, S, mech), has_unqualified, labels=[stream, "mechanism:" + mech, "dialect:" + dialect, "schema:" + S],
              sample=c if len(sql) < 250 else None)
     if precomputed:
         a, b = precomputed
     else:
-        a = view_scoped(sql, dialect, S)
-        b = view_scoped(sql_q, dialect, None)
+        a = view_scoped(sql, dialect, S, metadata)
+        b = view_scoped(sql_q, dialect, None, metadata)
     d = first_diff(a, b)
-    if d is None and S == "dflt" and mech == "scoped":
+    if d is None and S == "dflt" and mech == "scoped" and not metadata:
         # placeholder uniformity: the unset dump with '<default>.' replaced by 'dflt.' is the dump under default dflt
         u = view_scoped(sql, dialect, None)
         if "EXC" not in u and "EXC" not in a:
@@ -242,16 +264,16 @@ def _env_batch(payload):
     """environment mechanism: a batch of cases per schema, each side in its own fresh interpreter"""
     pairs, S, ctx = payload
     res = runner.Res()
-    b = views_env([{"sql": p["qualified_sql"], "dialect": p["dialect"]} for p in pairs], None)
+    b = views_env([{"sql": p["qualified_sql"], "dialect": p["dialect"], "metadata": p.get("metadata")} for p in pairs], None)
     names = sorted(ENV_MECHANISMS)
     for mi, mech in enumerate(names):
         # every pair under the plain environment mechanism; a third of them under each combined one
         sel = [k for k in range(len(pairs)) if mech == "environment" or k % (len(names) - 1) == mi % (len(names) - 1)]
         env_S, scoped = ENV_MECHANISMS[mech](S)
-        a = views_env([{"sql": pairs[k]["sql"], "dialect": pairs[k]["dialect"]} for k in sel], env_S, scoped)
+        a = views_env([{"sql": pairs[k]["sql"], "dialect": pairs[k]["dialect"], "metadata": pairs[k].get("metadata")} for k in sel], env_S, scoped)
         for k, x in zip(sel, a):
             p = pairs[k]
-            v = judge_pair(p["sql"], p["qualified_sql"], p["dialect"], S, mech, res, ctx, p["stream"], True, precomputed=(x, b[k]))
+            v = judge_pair(p["sql"], p["qualified_sql"], p["dialect"], S, mech, res, ctx, p["stream"], True, precomputed=(x, b[k]), metadata=p.get("metadata"))
             if v is not None and len(res.violations) < 3:
                 res.violation(v["kind"], v["case"], v["detail"])
     return res
@@ -278,11 +300,11 @@ def replay(case):
     S = case["default_schema"]
     if case.get("mechanism") in ENV_MECHANISMS:
         env_S, scoped = ENV_MECHANISMS[case["mechanism"]](S)
-        a = views_env([{"sql": case["sql"], "dialect": case["dialect"]}], env_S, scoped)[0]
-        b = views_env([{"sql": case["qualified_sql"], "dialect": case["dialect"]}], None)[0]
+        a = views_env([{"sql": case["sql"], "dialect": case["dialect"], "metadata": case.get("metadata")}], env_S, scoped)[0]
+        b = views_env([{"sql": case["qualified_sql"], "dialect": case["dialect"], "metadata": case.get("metadata")}], None)[0]
     else:
-        a = view_scoped(case["sql"], case["dialect"], S)
-        b = view_scoped(case["qualified_sql"], case["dialect"], None)
+        a = view_scoped(case["sql"], case["dialect"], S, case.get("metadata"))
+        b = view_scoped(case["qualified_sql"], case["dialect"], None, case.get("metadata"))
     d = first_diff(a, b)
     return None if d is None else {"kind": "replay", "case": case, "detail": d}
 
@@ -302,6 +324,12 @@ def run(ctx):
             v = judge_pair(sql, tpl.format(S=S), dialect, S, "scoped", special, ctx, "special")
             if v is not None:
                 special.violation(v["kind"], v["case"], v["detail"])
+    for dialect, sql, tpl, md in WITH_METADATA:
+        for kind, S0 in SCHEMAS:
+            S = spell(S0, dialect)
+            v = judge_pair(sql, tpl.format(S=S), dialect, S, "scoped", special, ctx, "with_metadata", metadata=md_for(md, S))
+            if v is not None:
+                special.violation(v["kind"], v["case"], v["detail"])
     res.merge(special)
     # environment mechanism in fresh interpreters
     stmts = env_cases(ctx, ctx.n(160, 3000))
@@ -318,6 +346,9 @@ def run(ctx):
         for dialect, sql, tpl in SPECIAL:
             if not S0.startswith("QUOTED"):
                 pairs.append({"sql": sql, "qualified_sql": tpl.format(S=S), "dialect": dialect, "stream": "special"})
+        for dialect, sql, tpl, md in WITH_METADATA:
+            if not S0.startswith("QUOTED"):
+                pairs.append({"sql": sql, "qualified_sql": tpl.format(S=S), "dialect": dialect, "stream": "with_metadata", "metadata": md_for(md, S)})
         batches.append((pairs, S, ctx))
     res.merge(runner.merge_all(runner.pmap(_env_batch, batches)))
     return res
